@@ -7,6 +7,7 @@ pub mod conv;
 pub mod core;
 pub mod deliver;
 pub mod engine;
+pub mod env;
 pub mod faults;
 pub mod gen;
 pub mod model;
